@@ -561,7 +561,7 @@ def pipeline(rep, meta, sfx):
             links.reverse()
             chains.append((n, links, cur))
     if len(chains) != 2:
-        r.lost("two iterator chains in optimize()")
+        pipeline_by_call_order(r, meta, fn)
         return
 
     def target(a):
@@ -639,6 +639,128 @@ def pipeline(rep, meta, sfx):
     if not okmap:
         r.violation("restorer-map", where(second[0]), "the restorer is not given the map of the converted rules "
                     "it is applied to")
+
+
+def pipeline_by_call_order(r, meta, fn):
+    """The same obligations when optimize() is written with loops and a per-rule helper instead of two iterator chains:
+    decided from the order of the pass calls along the paths of optimize() and of the helper(s) it calls, and from the
+    threading of each pass's result into the next through lets."""
+    convert = role_fns(meta)["convert"]
+    conv_paths = set(["pest_meta::optimizer::rule_to_optimized_rule"] + ([convert["path"]] if convert else []))
+    # the functions whose bodies spell the pipeline: optimize and private helpers of the optimizer module it calls
+    hosts = [fn]
+    for (cal, n) in hirq.call_sites(fn["body"]):
+        h = meta.fn(cal) if isinstance(cal, str) else None
+        if h is not None and h is not fn and h["path"].startswith("pest_meta::optimizer::") and h["path"].count("::") == 2 \
+                and h["path"] not in conv_paths and h.get("body") is not None:
+            hosts.append(h)
+
+    def stage_of(cal):
+        if not isinstance(cal, str) or not cal.startswith("pest_meta::optimizer::"):
+            return None
+        if cal in conv_paths:
+            return "conversion"
+        mod = cal.split("::")[2] if cal.count("::") >= 3 else None
+        if mod in PASSES:
+            return mod
+        if mod == "restorer":
+            return "restorer"
+        return None
+    seq = []      # (stage, call node, host) in evaluation order of the first path that runs them
+    for h in hosts:
+        best = []
+        try:
+            paths = list(exits(PathEnum(h, inline_closures=True).paths()))
+        except hirq.TooManyPaths:
+            paths = []
+        for (ev, out) in paths:
+            cur = [(stage_of(callee(e.node)), e.node, h) for e in ev if e.kind == "call" and stage_of(callee(e.node))]
+            if len(cur) > len(best):
+                best = cur
+        seq.append((h, best))
+    flat = []
+    for h, best in seq:
+        if h is fn:
+            continue
+        flat += best
+    own = [x for (h, best) in seq if h is fn for x in best]
+    # order: helper stages are spliced in where optimize() calls the helper; with one helper holding the rewriting
+    # passes and optimize() holding the restorer, the helper's stages come first
+    order = [s for (s, n, h) in flat + own]
+    if not order:
+        r.lost("calls of the rewriting passes in optimize() or its helpers")
+        return
+    for p in PASSES:
+        if p in order:
+            r.instance("pass:" + p, where(fn["body"]), "position %d" % order.index(p))
+        else:
+            r.violation("pass:" + p, where(fn["body"]), "pass %s is not applied to the rules" % p)
+    if "conversion" not in order:
+        r.violation("conversion", where(fn["body"]), "conversion to OptimizedRule not found in the pipeline")
+        return
+    conv_at = order.index("conversion")
+    r.instance("conversion", where(fn["body"]), "position %d" % conv_at)
+    if "unroller" in order and order.index("unroller") > conv_at:
+        r.violation("unroll-after-conversion", where(fn["body"]), "unroll runs after the conversion that cannot "
+                    "represent bounded repetitions")
+    late = [p for p in PASSES if p in order and order.index(p) > conv_at]
+    if late:
+        r.violation("pass-after-conversion", where(fn["body"]), "passes %s run after conversion" % late)
+    r.note("pass order (from call order): %s" % order)
+    # threading: the rule handed to each pass is the result of the previous one
+    prev = None
+    for (s, n, h) in flat + own:
+        if s == "restorer":
+            continue
+        args = hirq.call_args(n)
+        a0 = peel(args[0]) if args else None
+        lets = hirq.lets(h["body"])
+        if prev is not None and a0 is not None:
+            src = a0
+            if kind(src) == "Path" and src.get("res") == "local" and src["id"] in lets:
+                src = peel(lets[src["id"]][0])
+            if src is not prev[1] and not (kind(src) in ("Call", "MethodCall") and src is prev[1]):
+                if not (kind(a0) in ("Call", "MethodCall") and a0 is prev[1]):
+                    r.violation("thread:" + s, where(n), "pass %s is not applied to the result of %s" % (s, prev[0]))
+        prev = (s, n)
+    # every pass call sits in a loop / closure over the rules (or in a helper called from one)
+    ctxs = {id(h): hirq.Ctx(h) for h in hosts}
+    rest = [(s, n, h) for (s, n, h) in flat + own if s == "restorer"]
+    if len(rest) != 1:
+        r.violation("restorer", where(fn["body"]), "the restorer is not applied to every converted rule")
+        return
+    r.instance("restorer", where(rest[0][1]))
+    r.instance("every-path", where(fn["body"]))
+    s, call, h = rest[0]
+    in_loop = any(kind(p) in ("Loop", "Closure") for (p, k, i) in ctxs[id(h)].ancestors(call))
+    if not in_loop:
+        r.violation("every-path", where(call), "the restorer call is not inside a loop over the converted rules")
+    # an early return between the two stages would hand back rules without RestoreOnErr
+    for x in hirq.walk_no_closures(fn["body"]):
+        if kind(x) == "Ret" and not hirq.is_desugar(x):
+            r.violation("every-path", where(x), "a path through optimize() returns early: the rules it returns lack a "
+                        "stage's guarantees (RestoreOnErr around stack-popping branches)")
+            break
+    # the map handed to the restorer is built from the collection of converted rules the loop iterates over
+    okmap = False
+    if len(hirq.call_args(call)) == 2:
+        lets = hirq.lets(h["body"])
+        lid = hirq.local_id(hirq.call_args(call)[1])
+        if lid in lets and "OptimizedExpr" in str(hirq.call_args(call)[1].get("ty", "")):
+            init = peel(lets[lid][0])
+            iargs = hirq.call_like_args(init)
+            src = hirq.local_id(iargs[0]) if iargs else None
+            looped = set()
+            for (p, k, i) in ctxs[id(h)].ancestors(call):
+                if kind(p) == "Match" and p.get("src") in ("for", "forloop", "ForLoopDesugar") or kind(p) == "Match":
+                    for y in walk(p["scrut"]):
+                        if kind(y) == "Call" and str(callee(y)).endswith("IntoIterator::into_iter") and y["args"]:
+                            z = hirq.local_id(y["args"][0])
+                            if z is not None:
+                                looped.add(z)
+            okmap = src is not None and src in looped
+    if not okmap:
+        r.violation("restorer-map", where(call), "the restorer is not given the map of the converted rules it is applied to")
 
 
 def line_of(n):
